@@ -23,12 +23,18 @@ func init() {
 			if !ok {
 				continue
 			}
-			mc, ok := g.Call.Value.(*ssa.MakeClosure)
-			if !ok {
+			// the goroutine's function: a literal or a method
+			f := g.Call.StaticCallee()
+			if f == nil || len(f.Blocks) == 0 {
 				continue
 			}
-			f := mc.Fn.(*ssa.Function)
-			if len(e.Calls(f, "(*am/dispatch.Dispatcher).routeAlert")) > 0 {
+			routes := false
+			for _, x := range e.DeepInstrs(f, 2) {
+				if IsCall("(*am/dispatch.Dispatcher).routeAlert")(x) {
+					routes = true
+				}
+			}
+			if routes {
 				worker, goInstr = f, g
 			}
 		}
